@@ -1,6 +1,7 @@
 package twins
 
 import (
+	"runtime"
 	"bytes"
 	"encoding/binary"
 	"fmt"
@@ -799,6 +800,15 @@ func TestVerifC01(t *testing.T) {
 				t.Fatalf("world: %v", err)
 			}
 			emitHist(cons, 4, res9.hist.spec, res9, "script-certificates-naming-identities-outside-the-configuration-"+scheme)
+		}
+		for _, scheme := range []string{"ecdsa", "eddsa"} {
+			for _, procs := range []int{0, 2} {
+				res10, err := c01TailForgery(cons, scheme, procs, 7)
+				if err != nil {
+					t.Fatalf("world: %v", err)
+				}
+				emitHist(cons, 4, res10.hist.spec, res10, fmt.Sprintf("script-made-up-last-entry-%s-gomaxprocs-%d", scheme, procs))
+			}
 		}
 		res5, err := c01RogueKeyBLS(cons, 7)
 		if err != nil {
@@ -2783,6 +2793,139 @@ func c01ForeignSigners(cons, scheme string, seed int64) (*c01Result, error) {
 			}
 			parent, q = nb, fq
 		}
+	}
+	return c01Finish(h, live, 0), nil
+}
+
+// c01TailForgery: replica 2 is shown a private chain whose certificates hold two genuine signatures (the Byzantine
+// leader's and replica 2's own vote) and, in the last position, a made-up entry under replica 1's id, while replicas 1
+// and 3 follow the genuinely certified chain. Run with GOMAXPROCS lowered to 2 as well as unchanged.
+func c01TailForgery(cons, scheme string, procs int, seed int64) (*c01Result, error) {
+	spec := wSpec{consensus: cons, n: 4, byz: []hotstuff.ID{4}, seed: seed, crypto: scheme}
+	for i := 0; i < 20; i++ {
+		spec.leaders = append(spec.leaders, 4)
+	}
+	w, err := newWorld(spec)
+	if err != nil {
+		return nil, err
+	}
+	h := newC01Hist(w, spec)
+	B := w.nodes[NodeID{ReplicaID: 4}]
+	h1, h2, h3 := w.nodes[NodeID{ReplicaID: 1}], w.nodes[NodeID{ReplicaID: 2}], w.nodes[NodeID{ReplicaID: 3}]
+	live := []*wNode{h1, h2, h3}
+	for _, id := range w.order {
+		w.partition[id] = 0
+	}
+	flush := func() {
+		for guard := 0; len(w.pending) > 0 && guard < 10000; guard++ {
+			m := w.pending[0]
+			w.pending = w.pending[1:]
+			to := w.nodes[m.to]
+			if to.byz {
+				w.byzHandle(to, m.payload)
+				h.observe(nil)
+				continue
+			}
+			if p, ok := m.payload.(hotstuff.ProposeMsg); ok {
+				w.regProposal(&p)
+			}
+			to.eventLoop.AddEvent(m.payload)
+			w.drain(to)
+			h.observe(to)
+		}
+	}
+	k := 0
+	mk := func(view hotstuff.View, parent hotstuff.Hash, qc hotstuff.QuorumCert) *hotstuff.Block {
+		k++
+		b := hotstuff.NewBlock(parent, qc, &clientpb.Batch{Commands: []*clientpb.Command{{ClientID: 99, SequenceNumber: uint64(k), Data: []byte("byz")}}}, view, 4)
+		w.regBlock(b)
+		B.blockchain.Store(b)
+		return b
+	}
+	send := func(b *hotstuff.Block, to ...*wNode) {
+		for _, nd := range to {
+			w.byzSendTo(B, nd, hotstuff.ProposeMsg{ID: 4, Block: b})
+		}
+		flush()
+	}
+	newview := func(qc hotstuff.QuorumCert, to ...*wNode) {
+		for _, nd := range to {
+			w.byzSendTo(B, nd, hotstuff.NewViewMsg{ID: 4, SyncInfo: hotstuff.NewSyncInfoWith(qc), FromNetwork: true})
+		}
+		flush()
+	}
+	certify := func(b *hotstuff.Block) (hotstuff.QuorumCert, bool) {
+		if pc, err := B.auth.CreatePartialCert(b); err == nil {
+			B.votesSeen[b.Hash()] = append(B.votesSeen[b.Hash()], pc)
+		}
+		w.byzAssemble(B)
+		h.observe(nil)
+		for _, q := range w.qcs {
+			if q.BlockHash() == b.Hash() {
+				return q, true
+			}
+		}
+		return hotstuff.QuorumCert{}, false
+	}
+	gen := hotstuff.GetGenesis()
+	genQC := B.viewStates.HighQC()
+	_ = newview
+	_ = certify
+	// every signature entry must be verified however the work is split among workers: with fewer logical CPUs than
+	// entries a verifier that divides the entries among GOMAXPROCS workers and forgets the remainder skips the tail
+	if procs > 0 {
+		defer runtime.GOMAXPROCS(runtime.GOMAXPROCS(procs))
+	}
+	// a private chain for replica 2: each block's certificate lists the leader's genuine signature, replica 2's own
+	// genuine vote for that block, and LAST a made-up entry under replica 1's id
+	victim := h2
+	parent, q := gen, genQC
+	for v := 1; v <= 5; v++ {
+		nb := mk(hotstuff.View(v), parent.Hash(), q)
+		send(nb, victim)
+		own, err := B.auth.CreatePartialCert(nb)
+		if err != nil {
+			break
+		}
+		var vote hotstuff.PartialCert
+		found := false
+		for _, pc := range B.votesSeen[nb.Hash()] {
+			if pc.Signer() == victim.id.ReplicaID {
+				vote, found = pc, true
+			}
+		}
+		if !found {
+			break
+		}
+		var sg hotstuff.QuorumSignature
+		switch o := own.Signature().(type) {
+		case crypto.Multi[*crypto.ECDSASignature]:
+			vs, ok := vote.Signature().(crypto.Multi[*crypto.ECDSASignature])
+			if !ok || len(vs) != 1 {
+				return c01Finish(h, live, 0), nil
+			}
+			sg = crypto.NewMulti(o[0], vs[0], crypto.RestoreECDSASignature(o[0].ToBytes(), 1))
+		case crypto.Multi[*crypto.EDDSASignature]:
+			vs, ok := vote.Signature().(crypto.Multi[*crypto.EDDSASignature])
+			if !ok || len(vs) != 1 {
+				return c01Finish(h, live, 0), nil
+			}
+			sg = crypto.NewMulti(o[0], vs[0], crypto.RestoreEDDSASignature(o[0].ToBytes(), 1))
+		default:
+			return c01Finish(h, live, 0), nil
+		}
+		parent, q = nb, hotstuff.NewQuorumCert(sg, nb.View(), nb.Hash())
+	}
+	// the honest chain for replicas 1 and 3 (with the leader's vote each block has a genuine quorum)
+	parent, q = gen, genQC
+	for v := 1; v <= 5; v++ {
+		nb := mk(hotstuff.View(v), parent.Hash(), q)
+		send(nb, h1, h3)
+		fq, ok := certify(nb)
+		if !ok {
+			break
+		}
+		parent, q = nb, fq
 	}
 	return c01Finish(h, live, 0), nil
 }
